@@ -41,6 +41,9 @@ type AsyncScn struct {
 	Style      Style     `json:"style"`
 	Clock      []int     `json:"clock,omitempty"`     // simulated time the scheduler may let pass, in ms per decision
 	RotMs      int       `json:"rotation_ms,omitempty"` // RollingFile kind: rotation interval
+	Overflow   bool      `json:"overflow,omitempty"`     // C12: Block policy with more writes than the buffer holds
+	Restart    bool      `json:"restart,omitempty"`      // direct AsyncLogger: a first life (Start, a few items, Stop) precedes the workload on the SAME object
+	SleepMs    int       `json:"sleep_ms,omitempty"`     // the recording appender takes this much simulated time per item
 	DefaultSize bool     `json:"default_size,omitempty"` // the bufferSize attribute is omitted: the declared default (10000) applies
 	Cycle      bool      `json:"cycle,omitempty"`     // C12: Refresh, Destroy, Refresh again; the handle of the first life is used
 	Handles    int       `json:"handles,omitempty"` // C12: extra GetLogger calls for the same name
@@ -81,6 +84,7 @@ type asyncSys struct {
 	stop       func()
 	capacity   int
 	err        error
+	watchBase  int  // watched-site hits that belong to a first life (Restart)
 	gateOpen   bool // gates may be opened although the scenario says "held" (final drain)
 }
 
@@ -140,7 +144,8 @@ func buildAsync(x *Exec, s *AsyncScn) *asyncSys {
 	for i := range s.Refs {
 		r := getRec(fmt.Sprintf("rec%d", i))
 		r.Slow = s.Slow
-		if s.Gate != 0 {
+		r.SleepMs = s.SleepMs
+		if s.Gate != 0 && !(s.Restart && s.Via == "direct" && s.Kind == "AsyncLogger") {
 			r.SetGate()
 		}
 		sys.recs = append(sys.recs, r)
@@ -168,6 +173,29 @@ func buildAsync(x *Exec, s *AsyncScn) *asyncSys {
 			l := &log.AsyncLogger{LoggerBase: base, AppenderRefs: log.AppenderRefs{AppenderRefs: refs}, BufferSize: s.BufferSize, BufferFullPolicy: policyOf(s.Policy)}
 			sys.err = l.Start()
 			sys.logger, sys.counter, sys.stop = l, l.GetDiscardCounter, l.Stop
+			if s.Restart && sys.err == nil {
+				// a first life on the same object: a few items, Stop, Start again. The
+				// workload proper then runs on a restarted logger, which is a started logger.
+				ok := x.do("first-life", func() {
+					for k := 0; k < 3; k++ {
+						sys.submit(90, k, AOp{Lvl: "ERROR", Raw: k == 1, Size: 5}, nil)
+					}
+					l.Stop()
+					sys.err = l.Start()
+				})
+				if !ok {
+					sys.err = fmt.Errorf("first life (Start, 3 items, Stop, Start) did not return: %v", x.clientsStuck())
+				}
+				sys.watchBase = len(x.Sim.Watched())
+				base := l.GetDiscardCounter()
+				sys.counter = func() int64 { return l.GetDiscardCounter() - base }
+				for _, r := range sys.recs {
+					r.clear()
+					if s.Gate != 0 {
+						r.SetGate()
+					}
+				}
+			}
 		case "Logger":
 			l := &log.SyncLogger{LoggerBase: base, AppenderRefs: log.AppenderRefs{AppenderRefs: refs}}
 			sys.err = l.Start()
@@ -303,6 +331,7 @@ func genAsyncBase(rt *rapid.T, thorough bool) *AsyncScn {
 	s := &AsyncScn{Knobs: genKnobs(rt), Kind: "AsyncLogger"}
 	s.Via = rapid.SampledFrom([]string{"direct", "direct", "refresh"}).Draw(rt, "via")
 	s.Style = genStyle(rt)
+	s.Restart = s.Via == "direct" && rapid.IntRange(0, 3).Draw(rt, "restart") == 0
 	s.Policy = rapid.SampledFrom([]string{"Discard", "DiscardOldest", "Block"}).Draw(rt, "policy")
 	s.BufferSize = rapid.SampledFrom([]int{100, 100, 101, 130}).Draw(rt, "buffer_size")
 	if thorough {
